@@ -8,7 +8,7 @@ EXPLANATION = ('header parser functions (ncmpio_header_get.c) enforced against t
 HG = ['src/drivers/ncmpio/ncmpio_header_get.c', 'src/drivers/common/error_mpi2nc.c', 'src/drivers/common/ncx.m4']
 MODEL = ['stubs/mpi_model.c']
 
-def mk(name, fn, defs, canaries, replace=(), unwind=40, kind='bounded', bound=None, prop='C04', timeout=600, **kw):
+def mk(name, fn, defs, canaries, replace=(), unwind=44, kind='bounded', bound=None, prop='C04', timeout=600, **kw):
     return Job('%s/%s' % (prop, name), prop, HG, 'C04_hdr.c', enforce='ncmpio_header_get.c:' + fn, replace=replace,
                defines=defs, extra_src=MODEL, canaries=canaries, unwind=unwind, kind=kind, bound=bound, timeout=timeout,
                function_label=fn, **kw)
